@@ -55,7 +55,7 @@ def run_item(item):
         complete = True
         for i, kid in enumerate(kids):
             if i % nshards == shard:
-                n, ok = tx.explore(run_one, pb, root=kid, on_exec=on_exec)
+                n, ok = tx.explore(run_one, pb, root=kid, on_exec=on_exec, stop=lambda: st.extra.get('violations_total', 0) >= 12)
                 complete = complete and ok
     except tx.Divergence as e:
         raise common.MachineryError(f'world {name}: {e}')
